@@ -17,4 +17,6 @@ CONSTANTS
   AttOpts = {"none", "c12", "c1e4"}
   OkRecomputed = TRUE
   ParentForcesChildDebug = FALSE
+  PreOpts = {}
+  AliasedDefaults = FALSE
 PROPERTY Terminates
